@@ -746,10 +746,10 @@ namespace c02
                         ok = false;
                         continue;
                     }
-                    if (z->second.n != v.capacity())
-                        bad(op, "capacity_differs_from_allocation", mc::fmt("%s.capacity()=%zu, allocate(%zu)", nm, v.capacity(), z->second.n));
+                    if (z->second.n < v.capacity())
+                        bad(op, "capacity_exceeds_allocation", mc::fmt("%s.capacity()=%zu, allocate(%zu)", nm, v.capacity(), z->second.n));
                     // lifetime view: slots [0,size) hold live, not moved-from objects; the rest hold none
-                    for (size_t k = 0; tracked && k < z->second.n; k++)
+                    for (size_t k = 0; tracked && k < z->second.n; k++) // every slot of the block, not only capacity()
                     {
                         trk::St s = reg.state((const char *)v.data() + k * sizeof(T));
                         if (k < v.size() && s != trk::ALIVE)
@@ -883,6 +883,6 @@ namespace c02
         string n = Tr::name;
         mc::add_bfs(n + "_int", [n] { return std::unique_ptr<mc::Model>(new VecModel<Tr, int>(box(), n + "_int")); });
         mc::add_bfs(n + "_tracked", [n] { return std::unique_ptr<mc::Model>(new VecModel<Tr, Tracked>(box(), n + "_tracked")); });
-        mc::add_bfs(n + "_tracked_3values", [n] { return std::unique_ptr<mc::Model>(new VecModel<Tr, Tracked>(box_wide(), n + "_tracked")); });
+        mc::add_bfs(n + "_3values_tracked", [n] { return std::unique_ptr<mc::Model>(new VecModel<Tr, Tracked>(box_wide(), n + "_tracked")); });
     }
 }
